@@ -2306,3 +2306,191 @@ Proof.
   - apply dec_argssize; try exact HU; try exact Hv; lia.
   - apply dec_negate; exact HU.
 Qed.
+
+(* ---------- N: signed LEB128 ---------- *)
+Ltac Zify.zify_post_hook ::= Z.div_mod_to_equations.
+
+Lemma enc_sleb_fuel_S f v :
+  enc_sleb_fuel (S f) v =
+    (if (((v / 128 =? 0)%Z && (v mod 128 <? 64)%Z) || ((v / 128 =? -1)%Z && (64 <=? v mod 128)%Z))
+     then [n2b (Z.to_N (v mod 128))]
+     else n2b (128 + Z.to_N (v mod 128)) :: enc_sleb_fuel f (v / 128)).
+Proof. reflexivity. Qed.
+
+Lemma bit6_fact x : x < 128 -> (N.land x 64 =? 64) = (64 <=? x).
+Proof.
+  intros Hx.
+  pose proof (N_sweep 128 (fun x => Bool.eqb (N.land x 64 =? 64) (64 <=? x)) ltac:(vm_compute; reflexivity) x Hx) as H.
+  cbv beta in H. apply Bool.eqb_prop in H. exact H.
+Qed.
+
+(* the 64-bit two's complement pattern of z * 2^s *)
+Definition pat (z : Z) (s : N) : N := Z.to_N ((z * Z.of_N (2 ^ s)) mod 18446744073709551616)%Z.
+
+Definition shifts : list N := [0; 7; 14; 21; 28; 35; 42; 49; 56; 63].
+
+Lemma sleb_step dbg acc shift b r :
+  shift < 64 ->
+  sleb_loop dbg acc shift (b :: r) =
+    if (shift =? 63) && negb (b2n b =? 0) && negb (b2n b =? 127) then Err EBadSignedLeb128 else
+    let result := N.lor acc (wrap64 (low7 (b2n b) * 2 ^ shift)) in
+    if has_cont (b2n b) then sleb_loop dbg result (shift + 7) r
+    else if (shift + 7 <? 64) && (N.land (b2n b) 64 =? 64)
+         then Ok (to_i64 (N.lor result (wrap64 ((two64 - 1) * 2 ^ (shift + 7)))), r)
+         else Ok (to_i64 result, r).
+Proof.
+  intros Hs. cbn [sleb_loop].
+  destruct ((shift =? 63) && negb (b2n b =? 0) && negb (b2n b =? 127)); [reflexivity|].
+  unfold shl64 at 1. destruct (64 <=? shift) eqn:E; [lia|]. cbn [bind]. rewrite N.shiftl_mul_pow2.
+  cbv zeta. destruct (has_cont (b2n b)); [reflexivity|].
+  destruct (shift + 7 <? 64) eqn:E2; cbn [andb]; [|reflexivity].
+  destruct (N.land (b2n b) 64 =? 64); [|reflexivity].
+  unfold shl64. destruct (64 <=? shift + 7) eqn:E3; [lia|]. cbn [bind]. rewrite N.shiftl_mul_pow2. reflexivity.
+Qed.
+
+
+Definition done_byte (z : Z) : bool :=
+  ((z / 128 =? 0)%Z && (z mod 128 <? 64)%Z) || ((z / 128 =? -1)%Z && (64 <=? z mod 128)%Z).
+
+Ltac pow_lits :=
+  repeat match goal with
+         | |- context [2 ^ ?k] => let v := eval vm_compute in (2 ^ k) in change (2 ^ k) with v
+         | H : context [2 ^ ?k] |- _ => let v := eval vm_compute in (2 ^ k) in change (2 ^ k) with v in H
+         end.
+
+Ltac last_case s Ha Hb Hz Hd Ebn :=
+  let A1 := fresh "A1" in let A2 := fresh "A2" in let E6 := fresh "E6" in let T := fresh "T" in
+  match goal with |- context [wrap64 (?x * 2 ^ s)] =>
+    assert (A1 : wrap64 (x * 2 ^ s) = x * 2 ^ s) by (unfold wrap64, two64; pow_lits; lia) end;
+  rewrite A1, (lor_disjoint _ _ s Ha);
+  assert (T : (s + 7 <? 64) = true) by reflexivity; rewrite T; cbn [andb N.eqb Pos.eqb];
+  assert (A2 : wrap64 ((two64 - 1) * 2 ^ (s + 7)) = (2 ^ (64 - (s + 7)) - 1) * 2 ^ (s + 7)) by (vm_compute; reflexivity);
+  rewrite A2;
+  match goal with |- context [64 <=? ?bn] => destruct (64 <=? bn) eqn:E6 end;
+  [ rewrite (lor_disjoint _ (2 ^ (64 - (s + 7)) - 1) (s + 7)) by (pow_lits; lia);
+    do 3 f_equal; unfold pat; pow_lits; lia
+  | do 3 f_equal; unfold pat; pow_lits; lia ].
+
+Lemma sleb_last_at (s : N) dbg z acc rest :
+  In s shifts ->
+  acc < 2 ^ s -> (- Z.of_N (2 ^ (63 - s)) <= z < Z.of_N (2 ^ (63 - s)))%Z -> done_byte z = true ->
+  sleb_loop dbg acc s (n2b (Z.to_N (z mod 128)) :: rest) = Ok (to_i64 (acc + pat z s), rest).
+Proof.
+  intros Hin Ha Hz Hd.
+  assert (Hb : Z.to_N (z mod 128) < 128) by lia.
+  destruct (byte_facts _ Hb) as (B1 & B2 & B3 & _).
+  pose proof (bit6_fact _ Hb) as B6.
+  unfold done_byte in Hd.
+  rewrite sleb_step by (cbn in Hin; lia).
+  rewrite B1, B2, B3, B6. cbv zeta.
+  remember (Z.to_N (z mod 128)) as bn eqn:Ebn.
+  cbn in Hin.
+  destruct Hin as [<-|[<-|[<-|[<-|[<-|[<-|[<-|[<-|[<-|[<-|[]]]]]]]]]]].
+  - last_case 0 Ha Hb Hz Hd Ebn.
+  - last_case 7 Ha Hb Hz Hd Ebn.
+  - last_case 14 Ha Hb Hz Hd Ebn.
+  - last_case 21 Ha Hb Hz Hd Ebn.
+  - last_case 28 Ha Hb Hz Hd Ebn.
+  - last_case 35 Ha Hb Hz Hd Ebn.
+  - last_case 42 Ha Hb Hz Hd Ebn.
+  - last_case 49 Ha Hb Hz Hd Ebn.
+  - last_case 56 Ha Hb Hz Hd Ebn.
+  - (* 63: the value is 0 or -1 *)
+    change (2 ^ (63 - 63)) with 1 in Hz.
+    assert (Hz01 : (z = 0 \/ z = -1)%Z) by lia.
+    destruct Hz01 as [-> | ->]; vm_compute in Ebn; subst bn.
+    + replace ((63 =? 63) && negb (0 =? 0) && negb (0 =? 127)) with false by reflexivity.
+      replace ((63 + 7 <? 64) && (64 <=? 0)) with false by reflexivity.
+      cbv iota. change (wrap64 (0 * 2 ^ 63)) with 0. rewrite N.lor_0_r.
+      change (pat 0 63) with 0. rewrite N.add_0_r. reflexivity.
+    + replace ((63 =? 63) && negb (127 =? 0) && negb (127 =? 127)) with false by reflexivity.
+      replace ((63 + 7 <? 64) && (64 <=? 127)) with false by reflexivity.
+      cbv iota. change (wrap64 (127 * 2 ^ 63)) with (1 * 2 ^ 63). rewrite (lor_disjoint acc 1 63 Ha).
+      change (pat (-1) 63) with (1 * 2 ^ 63). reflexivity.
+Qed.
+
+Ltac cont_case s Ha Hb Hz Hd Ebn :=
+  let A1 := fresh "A1" in
+  match goal with |- context [wrap64 (?x * 2 ^ s)] =>
+    assert (A1 : wrap64 (x * 2 ^ s) = x * 2 ^ s) by (unfold wrap64, two64; pow_lits; lia) end;
+  rewrite A1, (lor_disjoint _ _ s Ha); cbn [andb N.eqb Pos.eqb];
+  split; [reflexivity|];
+  split; [cbn; tauto|];
+  split; [pow_lits; lia|];
+  split; [pow_lits; lia|];
+  unfold pat; pow_lits; lia.
+
+Lemma sleb_cont_at (s : N) dbg z acc bs :
+  In s shifts ->
+  acc < 2 ^ s -> (- Z.of_N (2 ^ (63 - s)) <= z < Z.of_N (2 ^ (63 - s)))%Z -> done_byte z = false ->
+  sleb_loop dbg acc s (n2b (128 + Z.to_N (z mod 128)) :: bs) =
+    sleb_loop dbg (acc + Z.to_N (z mod 128) * 2 ^ s) (s + 7) bs /\
+  In (s + 7) shifts /\
+  acc + Z.to_N (z mod 128) * 2 ^ s < 2 ^ (s + 7) /\
+  (- Z.of_N (2 ^ (63 - (s + 7))) <= z / 128 < Z.of_N (2 ^ (63 - (s + 7))))%Z /\
+  acc + Z.to_N (z mod 128) * 2 ^ s + pat (z / 128) (s + 7) = acc + pat z s.
+Proof.
+  intros Hin Ha Hz Hd.
+  assert (Hb : Z.to_N (z mod 128) < 128) by lia.
+  destruct (byte_facts _ Hb) as (_ & _ & _ & B4 & B5 & B6).
+  unfold done_byte in Hd.
+  rewrite sleb_step by (cbn in Hin; lia).
+  rewrite B4, B5, B6. cbv zeta.
+  remember (Z.to_N (z mod 128)) as bn eqn:Ebn.
+  cbn in Hin.
+  destruct Hin as [<-|[<-|[<-|[<-|[<-|[<-|[<-|[<-|[<-|[<-|[]]]]]]]]]]].
+  - cont_case 0 Ha Hb Hz Hd Ebn.
+  - cont_case 7 Ha Hb Hz Hd Ebn.
+  - cont_case 14 Ha Hb Hz Hd Ebn.
+  - cont_case 21 Ha Hb Hz Hd Ebn.
+  - cont_case 28 Ha Hb Hz Hd Ebn.
+  - cont_case 35 Ha Hb Hz Hd Ebn.
+  - cont_case 42 Ha Hb Hz Hd Ebn.
+  - cont_case 49 Ha Hb Hz Hd Ebn.
+  - cont_case 56 Ha Hb Hz Hd Ebn.
+  - exfalso. change (2 ^ (63 - 63)) with 1 in Hz. lia.
+Qed.
+
+
+Lemma sleb_loop_enc dbg : forall f z acc s rest,
+  In s shifts -> acc < 2 ^ s ->
+  (- Z.of_N (2 ^ (63 - s)) <= z < Z.of_N (2 ^ (63 - s)))%Z ->
+  (- 64 * 128 ^ Z.of_nat f <= z < 64 * 128 ^ Z.of_nat f)%Z ->
+  sleb_loop dbg acc s (enc_sleb_fuel (S f) z ++ rest) = Ok (to_i64 (acc + pat z s), rest).
+Proof.
+  induction f as [|f IH]; intros z acc s rest Hin Ha Hz Hf; rewrite enc_sleb_fuel_S;
+    fold (done_byte z); destruct (done_byte z) eqn:Hd.
+  - cbn [app]. apply sleb_last_at; auto.
+  - exfalso. unfold done_byte in Hd. change (128 ^ Z.of_nat 0)%Z with 1%Z in Hf. lia.
+  - cbn [app]. apply sleb_last_at; auto.
+  - rewrite <- app_comm_cons.
+    destruct (sleb_cont_at s dbg z acc (enc_sleb_fuel (S f) (z / 128) ++ rest) Hin Ha Hz Hd)
+      as (Hc & Hin' & Ha' & Hz' & Hp).
+    rewrite Hc, IH; auto.
+    + rewrite Hp. reflexivity.
+    + rewrite Nat2Z.inj_succ, Z.pow_succ_r in Hf by lia. lia.
+Qed.
+
+Theorem enc_sleb_read dbg z rest :
+  in_i64 z = true -> read_sleb128 dbg (enc_sleb z ++ rest) = Ok (z, rest).
+Proof.
+  intros Hz. unfold in_i64 in Hz. unfold read_sleb128, enc_sleb. change 19%nat with (S 18).
+  rewrite (sleb_loop_enc dbg 18 z 0 0 rest).
+  - f_equal. f_equal. unfold pat. change (2 ^ 0) with 1. rewrite N.add_0_l, Z.mul_1_r.
+    unfold to_i64, to_signed, wrapN. change (2 ^ 64) with 18446744073709551616.
+    change (2 ^ (64 - 1)) with 9223372036854775808.
+    destruct (Z.to_N (z mod 18446744073709551616) mod 18446744073709551616 <? 9223372036854775808) eqn:E; lia.
+  - cbn. auto.
+  - reflexivity.
+  - change (2 ^ (63 - 0)) with 9223372036854775808. lia.
+  - assert (H : (64 * 128 ^ Z.of_nat 18 = 5444517870735015415413993718908291383296)%Z) by (vm_compute; reflexivity).
+    rewrite H. lia.
+Qed.
+
+(* every DW_CFA opcode form, both vendors *)
+Theorem insn_decode_thm dbg be asize aa off w rest :
+  valid_asize asize = true -> wire_ok asize w = true ->
+  parse_insn dbg be asize aa off (enc_wire be asize w ++ rest) = decode_expect aa off w rest.
+Proof.
+  apply insn_decode_signed_hyp. intros z Hz rest'. apply enc_sleb_read. exact Hz.
+Qed.
